@@ -38,12 +38,6 @@ Proof. apply cache_get_del_other. exact returned_not_ts. Qed.
 Lemma init_cache_default cfg : cache_get (init_cache cfg []) ts_key = Some (VOne (AInt (c_now cfg))).
 Proof. reflexivity. Qed.
 
-Ltac start_tape :=
-  match goal with
-  | |- context [run_tape ?o ?c ?F ?t 0 ?s] =>
-    change (run_tape o c F t 0 s) with (run_tape o c F t (List.length (@nil byte)) s)
-  end.
-
 Section L.
 Variable orc : oracle.
 Variable cfg : config.
@@ -392,6 +386,50 @@ Proof.
   apply between_verdict_iff.
 Qed.
 
+(* ver = true variants (first script OP_TRUE), as iffs *)
+Theorem ts_after_verify_accepts_iff orc cfg ts thr f c vals :
+  flag_get (c_flags cfg) thr_key = Some (FVInt thr) ->
+  (2 <= List.length c <= 255 /\ List.length c <= c_max_item_size cfg) -> 2 <= c_max_items cfg ->
+  cache_get (init_cache cfg vals) ts_key = Some (VOne (AInt ts)) ->
+  match run_auth_scripts orc cfg (S (S (S f))) [[x01]; ts_after_lock c true] vals with
+  | AuthVerdict b _ => b = true <-> (be_to_Z c <= ts /\ (thr <= 0 \/ ts - c_now cfg < thr))%Z
+  | _ => False
+  end.
+Proof.
+  intros Hthr Hg Hit Hc.
+  destruct (ts_after_verify_exact orc cfg ts thr Hthr f c vals Hg Hit Hc) as [st ->]. apply V_iff.
+Qed.
+
+Theorem ts_before_verify_accepts_iff orc cfg ts thr f c vals :
+  flag_get (c_flags cfg) thr_key = Some (FVInt thr) ->
+  (2 <= List.length c <= 255 /\ List.length c <= c_max_item_size cfg) -> 2 <= c_max_items cfg ->
+  cache_get (init_cache cfg vals) ts_key = Some (VOne (AInt ts)) ->
+  match run_auth_scripts orc cfg (S (S (S (S (S f))))) [[x01]; ts_before_lock c true] vals with
+  | AuthVerdict b _ => b = true <-> (ts < be_to_Z c \/ (0 < thr /\ thr <= ts - c_now cfg))%Z
+  | _ => False
+  end.
+Proof.
+  intros Hthr Hg Hit Hc.
+  destruct (ts_before_verify_exact orc cfg ts thr Hthr f c vals Hg Hit Hc) as [st ->].
+  apply before_verdict_iff.
+Qed.
+
+Theorem ts_between_verify_accepts_iff orc cfg ts thr f c1 c2 vals :
+  flag_get (c_flags cfg) thr_key = Some (FVInt thr) ->
+  (2 <= List.length c1 <= 255 /\ List.length c1 <= c_max_item_size cfg) ->
+  (2 <= List.length c2 <= 255 /\ List.length c2 <= c_max_item_size cfg) -> 2 <= c_max_items cfg ->
+  cache_get (init_cache cfg vals) ts_key = Some (VOne (AInt ts)) ->
+  match run_auth_scripts orc cfg (S (S (S (S (S (S (S f))))))) [[x01]; ts_between_lock c1 c2 true] vals with
+  | AuthVerdict b _ =>
+    b = true <-> (be_to_Z c1 <= ts /\ (thr <= 0 \/ ts - c_now cfg < thr) /\ ts < be_to_Z c2)%Z
+  | _ => False
+  end.
+Proof.
+  intros Hthr Hg1 Hg2 Hit Hc.
+  destruct (ts_between_verify_exact orc cfg ts thr Hthr f c1 c2 vals Hg1 Hg2 Hit Hc) as [st ->].
+  apply between_verdict_iff.
+Qed.
+
 Print Assumptions ts_after_exact.
 Print Assumptions ts_before_exact.
 Print Assumptions ts_between_exact.
@@ -401,3 +439,6 @@ Print Assumptions ts_between_verify_exact.
 Print Assumptions ts_after_accepts_iff.
 Print Assumptions ts_before_accepts_iff.
 Print Assumptions ts_between_accepts_iff.
+Print Assumptions ts_after_verify_accepts_iff.
+Print Assumptions ts_before_verify_accepts_iff.
+Print Assumptions ts_between_verify_accepts_iff.
